@@ -58,6 +58,7 @@ type report struct {
 	LocksUnowned     []string   `json:"locks_unowned"`
 	AtomicFuncs      []string   `json:"atomic_funcs"`
 	GoStmts          int        `json:"go_stmts"`
+	SyncSites        []string   `json:"sync_sites"` // yield sites in front of statements that perform a synchronisation operation (sync, sync/atomic, channels)
 	API              []apiEntry `json:"api"`
 	PkgVars          []string   `json:"package_vars"`
 }
@@ -142,8 +143,8 @@ func main() {
 		fmt.Fprintln(os.Stderr, "instrument:", err)
 		os.Exit(2)
 	}
-	fmt.Printf("instrument: %d sites in %d files; %d map ranges owned, %d unowned; %d lock rewrites; %d atomic funcs\n",
-		rep.NSites, rep.Files, len(rep.MapRanges), len(rep.MapRangesUnowned), len(rep.LockRewrites), len(rep.AtomicFuncs))
+	fmt.Printf("instrument: %d sites in %d files (%d at synchronisation operations); %d map ranges owned, %d unowned; %d lock rewrites; %d atomic funcs\n",
+		rep.NSites, rep.Files, len(rep.SyncSites), len(rep.MapRanges), len(rep.MapRangesUnowned), len(rep.LockRewrites), len(rep.AtomicFuncs))
 }
 
 type instr struct {
@@ -253,8 +254,77 @@ func (in *instr) stmts(list []ast.Stmt) {
 		*in.nextSite++
 		pos := in.fset.Position(s.Pos())
 		in.rep.Sites = append(in.rep.Sites, site{ID: id, File: in.rel, Line: pos.Line, Func: in.curFunc})
-		in.insert(pos.Offset, fmt.Sprintf("_simhook.Y(%d); ", id))
+		hook := "Y"
+		if in.isSyncStmt(s) {
+			// a statement that performs a synchronisation operation: the scheduler can
+			// be told to concentrate its decisions here (check-then-act windows between
+			// two atomic operations are one statement wide)
+			hook = "YS"
+			in.rep.SyncSites = append(in.rep.SyncSites, in.where(s.Pos()))
+		}
+		in.insert(pos.Offset, fmt.Sprintf("_simhook.%s(%d); ", hook, id))
 	}
+}
+
+// isSyncStmt reports whether s itself (not the statements nested in its blocks,
+// which get their own yield points) calls into sync or sync/atomic or performs
+// a channel operation.
+func (in *instr) isSyncStmt(s ast.Stmt) bool {
+	found := false
+	var visit func(n ast.Node) bool
+	visit = func(n ast.Node) bool {
+		if found || n == nil {
+			return false
+		}
+		switch n := n.(type) {
+		case *ast.BlockStmt, *ast.FuncLit, *ast.CaseClause, *ast.CommClause:
+			return false // nested statements have their own yield points
+		case *ast.SendStmt:
+			found = true
+		case *ast.UnaryExpr:
+			if n.Op == token.ARROW {
+				found = true
+			}
+		case *ast.CallExpr:
+			if sel, ok := n.Fun.(*ast.SelectorExpr); ok {
+				if fn, ok := in.pkg.TypesInfo.Uses[sel.Sel].(*types.Func); ok && fn.Pkg() != nil {
+					if p := fn.Pkg().Path(); p == "sync" || p == "sync/atomic" {
+						found = true
+					}
+				}
+			}
+		}
+		return !found
+	}
+	// for compound statements look at the header expressions only
+	switch st := s.(type) {
+	case *ast.IfStmt:
+		if st.Init != nil {
+			ast.Inspect(st.Init, visit)
+		}
+		ast.Inspect(st.Cond, visit)
+	case *ast.ForStmt:
+		if st.Init != nil {
+			ast.Inspect(st.Init, visit)
+		}
+		if st.Cond != nil {
+			ast.Inspect(st.Cond, visit)
+		}
+	case *ast.RangeStmt:
+		ast.Inspect(st.X, visit)
+	case *ast.SwitchStmt:
+		if st.Init != nil {
+			ast.Inspect(st.Init, visit)
+		}
+		if st.Tag != nil {
+			ast.Inspect(st.Tag, visit)
+		}
+	case *ast.TypeSwitchStmt, *ast.SelectStmt, *ast.BlockStmt, *ast.LabeledStmt:
+		// nothing in the header
+	default:
+		ast.Inspect(s, visit)
+	}
+	return found
 }
 
 // ownable reports whether map keys of type t have a canonical order that does
